@@ -10,6 +10,7 @@ REALS = ("ValueType is modelled by exact reals (type R): every 'equals its defin
          "the size and growth of IEEE rounding error is NOT decided by this check")
 
 UNITS = {
+    "reversal": dict(tpl="reversal.rs.tpl", doc="methods::{UpperReversalSignal, LowerReversalSignal, ReversalSignal}"),
     "window_serde": dict(tpl="window_serde.rs.tpl", doc="Window's hand-written Deserialize checks + snapshot round trip"),
     "ma_laws": dict(tpl="ma_laws.rs.tpl", doc="C15 laws over the SMA/WMA definitions and the EMA recurrence; MovingAverage trait facts for SMA/WMA/EMA"),
     "converters": dict(tpl="converters.rs.tpl", doc="methods::{CollapseTimeframe<Candle>, Renko, RenkoOutput}"),
@@ -36,6 +37,13 @@ UNITS = {
 }
 
 KANI_GROUPS = {
+    "witness": dict(
+        src="kani/witness.rs", append_to="src/lib.rs", module="verif_witness",
+        harnesses=[
+            dict(name="vk_tsi_recurrence_3steps", kind="bounded(TSI(1,2), 3 steps, integer inputs in -8..=8)", timeout=900, tier="thorough", props=["C03"], witness_units=["ema"]),
+            dict(name="vk_ema_recurrence_3steps", kind="bounded(EMA(3), 3 steps, integer inputs in -8..=8)", timeout=900, tier="thorough", props=["C03"], witness_units=["ema"]),
+            dict(name="vk_rsi_sma_no_panic_4steps", kind="bounded(RSI<SMA(3)>, 4 steps, integer closes)", timeout=900, tier="thorough", props=["C10", "C12"], witness_units=["ind_rsi"]),
+        ]),
     "renko": dict(
         src="kani/renko.rs", append_to="src/methods/renko.rs", module="methods::renko::verif_renko",
         harnesses=[dict(name="vk_renko_boundary_concrete", kind="bounded(one concrete boundary price)", timeout=300, tier="quick"),
@@ -138,7 +146,7 @@ PROPS["C04"] = dict(
 
 METHOD_UNITS = ["sma", "simple_window", "wma", "vwma", "st_dev", "mean_abs_dev", "compose_ma", "ema", "derived_window",
                 "candle_methods", "highest_lowest", "highest_lowest_index"]
-ALL_VERUS = ["window", "ohlcv"] + METHOD_UNITS
+ALL_VERUS = ["window", "ohlcv"] + METHOD_UNITS + ["indicator_base", "combinators", "converters", "ind_macd", "ind_channels", "ind_rsi", "window_serde"]
 
 PROPS["C08"] = dict(
     verus=ALL_VERUS,
@@ -259,13 +267,13 @@ PROPS["C17"] = dict(
                  "prices are positive (input_ok), as in the property's valid-candle streams"],
 )
 PROPS["C18"] = dict(
-    verus=["ohlcv"], kani=["ohlcv", "text"],
+    verus=["ohlcv"], kani=["ohlcv"],
     claim=("tp, hl2, ohlc4, volumed_price, source(kind), clv (incl. the zero-range branch and |clv| <= 1 for an ordered candle), tr_close == max(h-l, |h-pc|, |l-pc|) "
            "for h >= l, tr, and Candle + Candle (with associativity as a lemma) are verified over exact reals against their formulas for an arbitrary "
            "OHLCV implementation; validate, the source dispatch and the clv zero-range branch are additionally proved bit-precisely for every f64 candle "
-           "(NaN/inf included) by loop-free Kani harnesses. The bit-precise tr_close identity and the text round trip of Source run in the thorough tier."),
+           "(NaN/inf included) by loop-free Kani harnesses. The bit-precise tr_close identity runs in the thorough tier."),
     assumptions=[REALS + " for the arithmetic identities (float + on volumes is not associative; the lemma is the ideal-arithmetic reading)",
-                 "MA text forms (MA::from_str) are not covered"],
+                 "text forms of Source and MA (from_str / into) are not covered: the string code needs unwinding bounds Kani did not finish within"],
 )
 
 PROPS["C15"] = dict(
